@@ -120,6 +120,7 @@ func propC05(c *Ctx) {
 		var out []*ssa.Return
 		seen := map[*ssa.Return]bool{}
 		for _, e := range edges {
+			e = threadEdge(e)
 			reach(Site{e.To, -1}, func(in ssa.Instruction) bool {
 				if r, ok := in.(*ssa.Return); ok && !seen[r] {
 					seen[r] = true
